@@ -346,8 +346,51 @@ impl Driver {
 // ---- driver/streams: holders of the peer's critical streams ------------------------------------------
 #[verifier::external_body]
 struct WatchSender { x: u8 }
-#[verifier::external_body]
-struct LocalSettingsStream { x: u8 }
+// ---- our control stream (C16: exactly one, typed Control, SETTINGS sent once as its first frame) ------
+// stream_header.rs `StreamHeader::new_control()` is the Control header without session id (its encoding
+// is under contract in units stream_header / frame_write and Kani p_stream_header_write_*)
+struct StreamHeader { kind: StreamKind, session_id: Option<SessionId> }
+impl StreamHeader {
+    #[verifier::external_body]
+    fn new_control() -> (r: StreamHeader) ensures r.kind == StreamKind::Control, r.session_id is None { unimplemented!() }
+}
+//@ extract wtransport-proto/src/bytes.rs >> mod r#async >> enum IoWriteError
+//@ subst `enum IoWriteError` => `enum ProtoWriteError`
+//@ end
+struct StreamUniLocalQuic { id: u64 }
+struct StreamUniLocalH3 { id: u64, header: StreamHeader }
+uninterp spec fn open_uni_outcome(c: QuicConnection) -> Option<StreamUniLocalQuic>;
+uninterp spec fn uni_upgrade_outcome(q: StreamUniLocalQuic, h: StreamHeader) -> Result<StreamUniLocalH3, ProtoWriteError>;
+uninterp spec fn send_settings_outcome(s: StreamUniLocalH3) -> Result<(), DriverError>;
+struct Stream;
+impl Stream {
+    #[verifier::external_body]
+    fn open_uni(quic_connection: &QuicConnection) -> (r: Option<StreamUniLocalQuic>) ensures r == open_uni_outcome(*quic_connection) { unimplemented!() }
+}
+impl StreamUniLocalQuic {
+    // writes the header (stream.rs unilocal upgrade_async: exact preamble, Kani / unit frame_write)
+    #[verifier::external_body]
+    fn upgrade(self, stream_header: StreamHeader) -> (r: Result<StreamUniLocalH3, ProtoWriteError>)
+        ensures r == uni_upgrade_outcome(self, stream_header), r matches Ok(h) ==> h.header == stream_header,
+    { unimplemented!() }
+}
+// driver/streams/settings.rs LocalSettingsStream (its run / send_settings error mapping: unit
+// driver_streams; the SETTINGS content: unit settings): here a record of the stream it holds and of
+// how many times SETTINGS were sent
+struct LocalSettingsStream { stream: Option<StreamUniLocalH3>, sent: Ghost<nat> }
+impl LocalSettingsStream {
+    fn is_empty(&self) -> (r: bool) ensures r == (self.stream is None) { self.stream.is_none() }
+    #[verifier::external_body]
+    fn set_stream(&mut self, stream: StreamUniLocalH3)
+        requires stream.header.kind == StreamKind::Control,
+        ensures final(self).stream == Some(stream), final(self).sent == old(self).sent,
+    { unimplemented!() }
+    #[verifier::external_body]
+    fn send_settings(&mut self) -> (r: Result<(), DriverError>)
+        requires old(self).stream is Some,
+        ensures r == send_settings_outcome(old(self).stream.unwrap()), final(self).stream == old(self).stream, final(self).sent@ == old(self).sent@ + 1,
+    { unimplemented!() }
+}
 #[verifier::external_body]
 struct ConnectStream { x: u8 }
 
@@ -489,6 +532,23 @@ impl Worker {
         ensures r == Err::<(), DriverError>(run_outcome(*old(self))),
             final(self).quic_connection == old(self).quic_connection, final(self).driver_result == old(self).driver_result,
     { unimplemented!() }
+
+// C16: exactly one local control stream, opened with the Control header, SETTINGS sent exactly once
+//@ extract wtransport/src/driver/mod.rs >> mod worker >> impl Worker >> fn open_and_send_settings
+//@ deawait
+//@ requires old(self).local_settings_stream.stream is None
+//@ ensures
+//@ | match open_uni_outcome(old(self).quic_connection) {
+//@ |     None => r == Err::<(), DriverError>(DriverError::NotConnected),
+//@ |     Some(q) => match uni_upgrade_outcome(q, StreamHeader { kind: StreamKind::Control, session_id: None }) {
+//@ |         Err(ProtoWriteError::NotConnected) => r == Err::<(), DriverError>(DriverError::NotConnected),
+//@ |         Err(ProtoWriteError::Stopped) => r == Err::<(), DriverError>(DriverError::Proto(ErrorCode::ClosedCriticalStream)),
+//@ |         Ok(h) => final(self).local_settings_stream.stream == Some(h) && h.header.kind == StreamKind::Control
+//@ |             && final(self).local_settings_stream.sent@ == old(self).local_settings_stream.sent@ + 1
+//@ |             && r == send_settings_outcome(h),
+//@ |     },
+//@ | }
+//@ end
 
 // C12 / C04: whatever ends the driver, the code put on the wire is the prescribed one and the
 // SAME error is what every pending and later operation is told (driver_result)
